@@ -165,7 +165,7 @@ def run_variant(job, d, tag, tier, cache_dir, versions, vname, ufmode, vdefs, re
         flags += ['--unwind', str(job['unwind']), '--unwinding-assertions']
     src_i = os.path.join(mb, os.path.basename(pre))
     h = hashlib.sha256()
-    h.update(open(src_i, 'rb').read())
+    h.update(open(src_i, 'rb').read().replace(os.path.dirname(d).encode(), b'@WORK@'))
     h.update(json.dumps([flags, versions]).encode())
     key = h.hexdigest()
     cf = os.path.join(cache_dir, key + '.json') if cache_dir else None
